@@ -196,6 +196,11 @@ func Universe() []UVal {
 		rawU("[]map[named]any", func() any { return []any{map[namedKey]any{"k": 2}, map[namedKey]any{"k": 1}} }),
 		rawU("named-string", func() any { return namedString("en") }),
 		rawU("nil*Drop", func() any { var p *Drop; return p }),
+		rawU("Drop{nil*Drop}", func() any { var p *Drop; return Drop{V: p} }),
+		rawU("[Drop{nil*Drop}]", func() any { var p *Drop; return []any{Drop{V: p}, 1} }),
+		rawU("\\xff", func() any { return "\xff" }),
+		rawU("\\x80a", func() any { return "\x80a" }),
+		rawU("bytes{0xfe}", func() any { return []byte{0xfe} }),
 		rawU("[nil*Drop]", func() any { var p *Drop; return []any{p, 1} }),
 		rawU("{k:nil*Drop}", func() any { var p *Drop; return map[string]any{"k": p, "title": p} }),
 		rawU("[]map[any]any", func() any { return []any{map[any]any{"k": "b", 1: 2}, map[any]any{"k": "a"}} }),
